@@ -21,7 +21,7 @@ import (
 	"verifharness/internal/kc"
 )
 
-var c11RabinFaults = []string{"none", "absent", "badShareJustified", "badShareUnjustified", "noResponses", "thresholdOne", "badSecretCommits"}
+var c11RabinFaults = []string{"none", "absent", "badShareJustified", "badShareUnjustified", "noResponses", "thresholdOne", "badSecretCommits", "badShareBadJustification", "forgedJustification"}
 
 type rabNode struct {
 	i      int
@@ -82,7 +82,7 @@ func c11RabinScenario(c *kc.Ctx, mock bool, n, t int, faults map[int]string, rng
 			viol("deals-panic", fmt.Sprintf("Deals() of node %d failed", d.i))
 			return
 		}
-		if d.fault == "badShareJustified" || d.fault == "badShareUnjustified" || d.fault == "thresholdOne" {
+		if d.fault == "badShareJustified" || d.fault == "badShareUnjustified" || d.fault == "thresholdOne" || d.fault == "badShareBadJustification" {
 			dl := d.dealer()
 			pd, err := dl.PlaintextDeal(d.victim)
 			if err == nil {
@@ -107,6 +107,14 @@ func c11RabinScenario(c *kc.Ctx, mock bool, n, t int, faults map[int]string, rng
 				viol("processdeal-panic", fmt.Sprintf("ProcessDeal at %d of deal from %d panicked", j, d.i))
 				return
 			}
+			if err == nil && r != nil && nodes[j].fault == "forgedJustification" && nodes[j].victim == d.i && r.Response != nil {
+				// a false complaint, correctly signed by the faulty verifier
+				fr := &rvss.Response{SessionID: r.Response.SessionID, Index: r.Response.Index, Approved: false}
+				if sig, e := schnorr.Sign(w.suite, nodes[j].sec, fr.Hash(w.suite)); e == nil {
+					fr.Signature = sig
+					r = &rdkg.Response{Index: r.Index, Response: fr}
+				}
+			}
 			if err == nil && r != nil && nodes[j].fault != "noResponses" {
 				resps = append(resps, r)
 			}
@@ -121,18 +129,63 @@ func c11RabinScenario(c *kc.Ctx, mock bool, n, t int, faults map[int]string, rng
 				continue
 			}
 			var j *rdkg.Justification
-			run(func() { j, _ = x.gen.ProcessResponse(r) })
+			// every recipient gets its own copy of the message, as on a network (the library records and
+			// later updates the Response object it is handed)
+			rc := rabCopyResponse(r)
+			run(func() { j, _ = x.gen.ProcessResponse(rc) })
 			if j != nil && x.fault != "badShareUnjustified" {
 				justs = append(justs, j)
 			}
 		}
 	}
+	// Read-only queries between the phases must not change the outcome: a random subset of the nodes asks
+	// for QUAL / Certified now (responses in, justifications not yet).
+	for _, x := range nodes {
+		if x.fault != "absent" && rng.Intn(2) == 0 {
+			run(func() { _ = x.gen.QUAL(); _ = x.gen.Certified() })
+		}
+	}
+	// ... and the same faulty verifier then broadcasts, ahead of the dealer's answer, a "justification" in the
+	// dealer's name that reveals a wrong share and carries no valid signature
+	for _, f := range nodes {
+		if f.fault != "forgedJustification" {
+			continue
+		}
+		d := nodes[f.victim]
+		if d.fault != "none" {
+			continue
+		}
+		pd, err := d.dealer().PlaintextDeal(f.i)
+		if err != nil || pd == nil {
+			continue
+		}
+		bad := *pd
+		bad.SecShare = &share.PriShare{I: pd.SecShare.I, V: w.suite.Scalar().Add(pd.SecShare.V, w.suite.Scalar().One())}
+		fj := &rdkg.Justification{Index: uint32(d.i), Justification: &rvss.Justification{SessionID: pd.SessionID, Index: uint32(f.i), Deal: &bad, Signature: []byte("not the dealer")}}
+		justs = append([]*rdkg.Justification{fj}, justs...)
+		c.CountKind("rabin:forged-justification")
+	}
+	badJustSent := map[int]bool{}
 	for _, j := range justs {
+		if d := nodes[j.Index]; d.fault == "badShareBadJustification" && j.Justification != nil && j.Justification.Deal != nil && j.Justification.Deal.SecShare != nil {
+			// the dealer answers the complaint with a deal that still does not match its commitments
+			bad := *j.Justification.Deal
+			bad.SecShare = &share.PriShare{I: bad.SecShare.I, V: w.suite.Scalar().Add(bad.SecShare.V, w.suite.Scalar().One())}
+			nj := &rvss.Justification{SessionID: j.Justification.SessionID, Index: j.Justification.Index, Deal: &bad}
+			if sig, err := schnorr.Sign(w.suite, d.sec, nj.Hash(w.suite)); err == nil {
+				nj.Signature = sig
+				j = &rdkg.Justification{Index: j.Index, Justification: nj}
+				badJustSent[d.i] = true
+			}
+		}
 		for _, x := range nodes {
-			if x.fault == "absent" || uint32(x.i) == j.Index {
+			// a dealer has already processed the justifications it issued itself; everything else on the
+			// broadcast channel reaches every node, the named dealer included
+			if x.fault == "absent" || (uint32(x.i) == j.Index && string(j.Justification.Signature) != "not the dealer") {
 				continue
 			}
-			run(func() { _ = x.gen.ProcessJustification(j) })
+			jc := rabCopyJustification(j)
+			run(func() { _ = x.gen.ProcessJustification(jc) })
 		}
 	}
 	// 3. timeout
@@ -291,6 +344,31 @@ func c11RabinScenario(c *kc.Ctx, mock bool, n, t int, faults map[int]string, rng
 			same = ref.dks.Commits[k].Equal(o.dks.Commits[k])
 		}
 		if !same {
+			// is the difference confined to dealers named in a forged, unsigned justification?
+			diff := map[uint32]bool{}
+			for _, q := range ref.qual {
+				diff[q] = !diff[q]
+			}
+			for _, q := range o.qual {
+				diff[q] = !diff[q]
+			}
+			forgedOnly := fmt.Sprint(o.qual) != fmt.Sprint(ref.qual)
+			for q, on := range diff {
+				if !on {
+					continue
+				}
+				named := false
+				for _, f := range nodes {
+					if f.fault == "forgedJustification" && uint32(f.victim) == q {
+						named = true
+					}
+				}
+				forgedOnly = forgedOnly && named
+			}
+			if forgedOnly {
+				viol("agreement:forged-unsigned-justification", fmt.Sprintf("honest nodes %d and %d output different QUAL (%v vs %v): a verifier complained falsely about an honest dealer and broadcast, in the dealer's name, an unsigned justification revealing a wrong share; nodes that see it before the dealer's answer mark the dealer bad for good", ref.n.i, o.n.i, ref.qual, o.qual))
+				return
+			}
 			viol("agreement", fmt.Sprintf("honest nodes %d and %d output different QUAL / commitments (%v vs %v)", ref.n.i, o.n.i, ref.qual, o.qual))
 			return
 		}
@@ -301,7 +379,7 @@ func c11RabinScenario(c *kc.Ctx, mock bool, n, t int, faults map[int]string, rng
 		if !pp.Check(o.dks.Share) {
 			key := "share-off-polynomial"
 			for i, f := range faults {
-				if f == "badShareUnjustified" && nodes[i].victim == o.n.i {
+				if (f == "badShareUnjustified" || f == "badShareBadJustification") && nodes[i].victim == o.n.i {
 					key = "share-off-polynomial:unjustified-complaint-dealer-kept"
 				}
 			}
@@ -325,8 +403,19 @@ func c11RabinScenario(c *kc.Ctx, mock bool, n, t int, faults map[int]string, rng
 				in = true
 			}
 		}
-		if honest(x) && !in && len(faults) <= n-t {
+		forgedAgainst := false
+		for _, f := range nodes {
+			if f.fault == "forgedJustification" && f.victim == x.i {
+				forgedAgainst = true
+			}
+		}
+		if honest(x) && !in && len(faults) <= n-t && forgedAgainst {
+			viol("honest-dealer-disqualified:forged-unsigned-justification", fmt.Sprintf("honest dealer %d is not in QUAL %v: one verifier complained falsely and sent, in the dealer's name, an unsigned justification revealing a wrong share", x.i, ref.qual))
+		} else if honest(x) && !in && len(faults) <= n-t {
 			viol("honest-dealer-disqualified", fmt.Sprintf("honest dealer %d is not in QUAL %v", x.i, ref.qual))
+		}
+		if x.fault == "badShareBadJustification" && badJustSent[x.i] && in {
+			viol("bad-justification-dealer-qualified", fmt.Sprintf("dealer %d answered a complaint with an invalid justification and is in QUAL %v", x.i, ref.qual))
 		}
 		if x.fault == "absent" && in {
 			viol("absent-dealer-qualified", fmt.Sprintf("absent dealer %d is in QUAL %v", x.i, ref.qual))
@@ -362,4 +451,28 @@ func c11Rabin(c *kc.Ctx, rng *kc.Rng) {
 		}
 	}
 	c.Extra("scenarios_R_rabin_dkg_search_only", scen)
+}
+
+func rabCopyResponse(r *rdkg.Response) *rdkg.Response {
+	if r == nil || r.Response == nil {
+		return r
+	}
+	in := *r.Response
+	in.SessionID = append([]byte{}, in.SessionID...)
+	in.Signature = append([]byte{}, in.Signature...)
+	return &rdkg.Response{Index: r.Index, Response: &in}
+}
+
+func rabCopyJustification(j *rdkg.Justification) *rdkg.Justification {
+	if j == nil || j.Justification == nil {
+		return j
+	}
+	in := *j.Justification
+	in.SessionID = append([]byte{}, in.SessionID...)
+	in.Signature = append([]byte{}, in.Signature...)
+	if in.Deal != nil {
+		d := *in.Deal
+		in.Deal = &d
+	}
+	return &rdkg.Justification{Index: j.Index, Justification: &in}
 }
